@@ -40,6 +40,9 @@ def scenario(ctx, i):
     w, m, v, sc = gen.gmm_params(r, C, D, scales=np.ones(D) * 10.0 ** r.choice([-1, 0, 0, 1]))
     um, uv, uw = SWITCHES[i % 8]
     reyn = i % 5 != 4
+    int_prior = bool(r.random() < (0.5 if not reyn else 0.15))
+    if int_prior:  # a prior typed in by hand: integer-valued means in an integer-typed array
+        m = np.rint(m)
     rel = float(10 ** r.uniform(-6, 6)) if i % 3 else float(10 ** r.uniform(-1, 1.5))
     alpha = float(r.choice([0.0, 1.0, r.random()]))
     thr = gen.EPS if r.random() < 0.4 else float(10 ** r.uniform(-2, 0))  # drawn, not derived from i: no parity clash with the other choices
@@ -56,7 +59,7 @@ def scenario(ctx, i):
     cur = None
     if i % 2:
         cur = dict(w=r.dirichlet(np.full(C, 3.0)), m=m + 0.3 * r.normal(size=m.shape) * np.sqrt(v), v=v * r.uniform(0.5, 2, v.shape))
-    return dict(C=C, D=D, w=w, m=m, v=v, x=x, um=um, uv=uv, uw=uw, reynolds=reyn, r=rel, alpha=alpha, thr=thr, st=st, cur=cur, floor=gen.EPS,
+    return dict(C=C, D=D, w=w, m=m, v=v, x=x, um=um, uv=uv, uw=uw, reynolds=reyn, r=rel, alpha=alpha, thr=thr, st=st, cur=cur, floor=gen.EPS, int_prior=int_prior,
                 late=[None, None, "set_params", "setattr"][int(r.integers(0, 4))])
 
 
@@ -64,6 +67,8 @@ def mk_map(sc, **kw):
     from bob.learn.em import GMMMachine
 
     ubm = gen.mk_gmm(sc["w"], sc["m"], sc["v"], thr=sc["floor"])
+    if sc.get("int_prior"):
+        ubm.means = np.rint(np.asarray(sc["m"])).astype(np.int64)
     opts = dict(update_means=sc["um"], update_variances=sc["uv"], update_weights=sc["uw"],
                 map_relevance_factor=sc["r"] if sc["reynolds"] else None, map_alpha=sc["alpha"])
     if sc.get("late"):
@@ -130,7 +135,7 @@ def correspondence(ctx):
         ctx.count("starved-component" if starved else "all-components-have-evidence")
         ctx.case([core.tolist(sc["m"]), core.tolist(st.n), sw, sc["r"], sc["alpha"], sc["reynolds"]], nontrivial=sc["C"] >= 2 and (sc["um"] or sc["uv"] or sc["uw"]),
                  sample={"C": sc["C"], "D": sc["D"], "switches": sw, "relevance": sc["r"] if sc["reynolds"] else None, "alpha": sc["alpha"], "n": st.n})
-        inp = {**{k: sc[k] for k in ("w", "m", "v", "um", "uv", "uw", "reynolds", "r", "alpha", "thr", "cur", "late")}, "stats": gen.stats_impl(st)}
+        inp = {**{k: sc[k] for k in ("w", "m", "v", "um", "uv", "uw", "reynolds", "r", "alpha", "thr", "cur", "late", "int_prior") if k in sc}, "stats": gen.stats_impl(st)}
         if isinstance(res, core.ImplError):
             bad.append({"op": "gmm_mstep_map:means", "input": inp, "impl": repr(res)})
             continue
@@ -285,7 +290,7 @@ def search(ctx):
         f = oracle_penalised(sc)
         if f and f["sig"] not in seen:
             seen.add(f["sig"])
-            f["input"] = {k: sc[k] for k in ("C", "D", "w", "m", "v", "x", "um", "uv", "uw", "reynolds", "r", "alpha", "thr", "st", "cur", "floor", "late")}
+            f["input"] = {k: sc[k] for k in ("C", "D", "w", "m", "v", "x", "um", "uv", "uw", "reynolds", "r", "alpha", "thr", "st", "cur", "floor", "late", "int_prior") if k in sc}
             f["oracle"] = "penalised"
             fails.append(f)
     for i in range(ctx.budget(64, 640)):
@@ -295,7 +300,7 @@ def search(ctx):
         f = oracle(sc) or (oracle_limits(sc) if i % 4 == 0 else None)
         if f and f["sig"] not in seen:
             seen.add(f["sig"])
-            f["input"] = {k: sc[k] for k in ("C", "D", "w", "m", "v", "x", "um", "uv", "uw", "reynolds", "r", "alpha", "thr", "st", "cur", "floor", "late")}
+            f["input"] = {k: sc[k] for k in ("C", "D", "w", "m", "v", "x", "um", "uv", "uw", "reynolds", "r", "alpha", "thr", "st", "cur", "floor", "late", "int_prior") if k in sc}
             f["oracle"] = "limits" if f["sig"].startswith("map-limit") else "blend"
             fails.append(f)
     return fails
